@@ -112,9 +112,9 @@ def _insert(line, sel, pos):
 
 
 def gen(rng, tier, info):
-    ntrees = {"quick": 14, "thorough": 60, "search": 6}[tier]
+    ntrees = {"quick": 13, "thorough": 60, "search": 6}[tier]
     ndeep = {"quick": 1, "thorough": 6, "search": 1}[tier]
-    nmany = {"quick": 30, "thorough": 150, "search": 10}[tier]
+    nmany = {"quick": 24, "thorough": 150, "search": 10}[tier]
     cases = []
     hist = {}
     sel2 = [[a] for a in SWITCHES] + [[a, b] for a in SWITCHES for b in SWITCHES if a != b]
